@@ -4,6 +4,7 @@ Every session runs in a forked child: real pty, real raw_display.Screen, real Ma
 six event loops under the virtual clock of vf/loops.py."""
 from __future__ import annotations
 
+import concurrent.futures as cf
 import json
 import multiprocessing as mp
 import os
@@ -24,12 +25,29 @@ INPUTS = {
     "two": (b"aq", ["a", "q"], None),   # two keys in one read
     "mouseH": (b"\x1b[<0;3;2M", ["mouse press 1 2 1"], True),
     "mouseU": (b"\x1b[<2;4;1M", ["mouse press 3 3 0"], False),
+    "meta": (b"\x1bz", ["meta z"], False),
+    "esc": (b"\x1b", ["esc"], False),   # a lone ESC: the screen may keep it back while it waits for the rest of a sequence
 }
+SPLITTABLE = {"up": 3, "meta": 2, "mouseH": 9, "mouseU": 9}     # inputs of several bytes that decode to one event (NBytes of MainLoop.tla)
+GAP_MS = 5              # Gap of MainLoop.tla: time between the two reads of a split input
+COMPLETE_WAIT_MS = 125  # Screen.complete_wait
 CALLBACKS = ["filter", "keypress", "mouse_event", "unhandled", "alarm", "pipe", "render"]
 
 
+def kind_str(kind, cut=0, also="-"):
+    """Event kind syntax: [also+]kind[@cut] -- `also` is typed just before `kind` and arrives in the same read; with @cut only the
+    first `cut` bytes of `kind` arrive in that read, the rest GAP_MS later."""
+    return (f"{also}+" if also and also != "-" else "") + kind + (f"@{cut}" if cut else "")
+
+
+def parse_kind(k):
+    also, _, main = k.rpartition("+")
+    main, _, cut = main.partition("@")
+    return also or None, main, int(cut) if cut else 0
+
+
 def _session(cfg):
-    """Runs in a forked child.  cfg: loop, events [(ms, kind)], fault (kind, index, exc)|None, pop_ups, mouse."""
+    """Runs in a forked child.  cfg: loop, events [(ms, kind)], fault (kind, index, exc)|None, pop_ups, mouse, swap."""
     import fcntl
     import struct
     import termios
@@ -118,6 +136,7 @@ def _session(cfg):
             handled = key == "a" and not hits("keypress")
             env.log(t="keypress", key=keyname(key), handled=handled, w=self.wid)
             maybe_raise("keypress")
+            maybe_swap("keypress")
             if handled:
                 self.bump()
                 return None
@@ -127,6 +146,7 @@ def _session(cfg):
             handled = button == 1 and not hits("mouse_event")
             env.log(t="mouse_event", key=keyname((event, button, col, row)), handled=handled, w=self.wid)
             maybe_raise("mouse_event")
+            maybe_swap("mouse_event")
             if handled:
                 self.bump()
             return handled
@@ -206,22 +226,30 @@ def _session(cfg):
             pipe_w = ml.watch_pipe(pipe_cb)
             env.realfds[ml._watch_pipes[pipe_w][1]] = 3
         cur = [W, H]
+
+        def typing(data, arrivals, partial=False, held=None):
+            """The user's bytes reach the terminal (one write: one read for the screen); `arrivals`: the input events they complete."""
+            def act():
+                for names in arrivals:
+                    env.log(t="arrive", keys=names)
+                if partial:
+                    env.log(t="partial")
+                if held:      # nothing tells a lone ESC from the beginning of a sequence: the screen may keep it for complete_wait
+                    env.log(t="arrive_held", keys=held, wait=COMPLETE_WAIT_MS * 1000)
+                if data:
+                    os.write(master, data)
+            return act
+
         for ms, kind in cfg["events"]:
             if legacy and kind in ("pipe", "resize"):
                 continue
-            if legacy and kind != "alarm":       # input typed at a real time: written to the terminal from an alarm
-                data, names, _ = INPUTS[kind]
-
-                def typed(loop, d, data=data, names=names):
-                    env.log(t="arrive", keys=names)
-                    os.write(master, data)
-                ml.set_alarm_in(ms / 1000.0, typed)
-                continue
             if kind == "alarm":
                 ml.set_alarm_in(ms / 1000.0, alarm_cb)
-            elif kind == "pipe":
+                continue
+            if kind == "pipe":
                 env.actions.append((ms / 1000.0, lambda: os.write(pipe_w, b"p")))
-            elif kind == "resize":
+                continue
+            if kind == "resize":
                 def act():
                     cur[0] = W - 2 if cur[0] == W else W
                     fcntl.ioctl(slave, termios.TIOCSWINSZ, struct.pack("HHHH", cur[1], cur[0], 0, 0))
@@ -229,14 +257,22 @@ def _session(cfg):
                     signal.raise_signal(signal.SIGWINCH)
 
                 env.actions.append((ms / 1000.0, act))
+                continue
+            also, main, cut = parse_kind(kind)
+            data, names, _ = INPUTS[main]
+            pre = INPUTS[also][0] if also else b""
+            pre_names = [INPUTS[also][1]] if also else []
+            if legacy:       # input typed at a real time: written to the terminal from an alarm (whole: get_input() has its own waiting)
+                if main == "esc":
+                    data, names = INPUTS["keyU"][:2]
+                ml.set_alarm_in(ms / 1000.0, lambda loop, d, a=typing(pre + data, [*pre_names, names]): a())
+            elif main == "esc":
+                env.actions.append((ms / 1000.0, typing(pre + data, pre_names, held=names)))
+            elif cut:
+                env.actions.append((ms / 1000.0, typing(pre + data[:cut], pre_names, partial=True)))
+                env.actions.append(((ms + GAP_MS) / 1000.0, typing(data[cut:], [names])))
             else:
-                data, names, _ = INPUTS[kind]
-
-                def act(data=data, names=names):
-                    env.log(t="arrive", keys=names)
-                    os.write(master, data)
-
-                env.actions.append((ms / 1000.0, act))
+                env.actions.append((ms / 1000.0, typing(pre + data, [*pre_names, names])))
         env.actions.sort(key=lambda x: x[0])
         # the session always ends: a final alarm exits the loop
 
@@ -344,16 +380,64 @@ def random_cfg(rng, loop):
     if rng.random() < 0.75:
         fault = (rng.choice(CALLBACKS), rng.randint(1, 3), rng.choice(["exit", "error", "error", "base"]))
     return {"loop": loop, "events": events, "fault": fault, "pop_ups": rng.random() < 0.3, "mouse": rng.random() < 0.8,
-            "paste": rng.random() < 0.4, "focusrep": rng.random() < 0.4, "swap": rng.choice([None, None, "alarm", "unhandled"])}
+            "paste": rng.random() < 0.4, "focusrep": rng.random() < 0.4, "swap": rng.choice([None, None, None, *SWAPS])}
+
+
+INPUT_KINDS = ["keyH", "keyU", "keyX", "up", "ctrlL", "two", "mouseH", "mouseU", "meta"]
+SWAPS = ["alarm", "unhandled", "keypress", "mouse_event"]
+
+
+def _late_fault(rng, p=0.3):
+    """Mostly no fault: these families are about delivery; a fault at a later invocation lets the interesting part happen first."""
+    if rng.random() >= p:
+        return None
+    return (rng.choice(CALLBACKS), rng.randint(2, 4), rng.choice(["exit", "error", "base"]))
+
+
+def batch_cfg(rng, loop):
+    """Typed-ahead / pasted input: two to four inputs reach the terminal together (ONE read, one call of the input filter, one
+    process_input batch), and the application replaces the topmost widget from a handler somewhere in the batch; other events around."""
+    t = rng.choice([0, 10, 20])
+    atoms = [rng.choice(INPUT_KINDS) for _ in range(rng.randint(2, 4))]
+    events = [(t, kind_str(atoms[i + 1], 0, atoms[i])) for i in range(0, len(atoms) - 1, 2)]
+    if len(atoms) % 2:
+        events.append((t, atoms[-1]))
+    for _ in range(rng.randint(0, 2)):
+        events.append((rng.choice([0, 10, 20, 30]), rng.choice(["alarm", "pipe", "resize", "keyH", "keyU"])))
+    events.sort(key=lambda e: e[0])
+    return {"loop": loop, "events": events, "fault": _late_fault(rng), "pop_ups": rng.random() < 0.2, "mouse": True,
+            "paste": rng.random() < 0.3, "focusrep": rng.random() < 0.3, "swap": rng.choice(SWAPS + ["unhandled", "keypress"])}
+
+
+def split_cfg(rng, loop):
+    """An input of several bytes reaches the screen in two reads (cut at any byte, the rest GAP_MS later, well within complete_wait),
+    possibly right behind another input in the first read; or a lone ESC, which the screen can only report once its wait has run out.
+    Nothing else is typed inside the window; alarms, pipe writes and resizes may fall anywhere, also between the two reads."""
+    t = rng.choice([0, 10, 20, 30])
+    events = [(rng.choice([x for x in (0, 10, 20, 30) if x < t]), rng.choice(INPUT_KINDS)) for _ in range(rng.randint(0, 1) if t else 0)]
+    also = rng.choice(["-", "-", "keyH", "keyU", "keyX", "ctrlL"])
+    if rng.random() < 0.2:
+        events.append((t, kind_str("esc", 0, also)))
+    else:
+        main = rng.choice(list(SPLITTABLE))
+        events.append((t, kind_str(main, rng.randint(1, SPLITTABLE[main] - 1), also)))
+        if rng.random() < 0.4:       # typed after the sequence is complete
+            events.append((t + 10, rng.choice(INPUT_KINDS + ["esc"])))
+    for _ in range(rng.randint(0, 2)):
+        events.append((rng.choice([0, 5, 10, 15, 20, 30, 35]), rng.choice(["alarm", "pipe", "resize"])))
+    events.sort(key=lambda e: e[0])
+    return {"loop": loop, "events": events, "fault": _late_fault(rng), "pop_ups": rng.random() < 0.3, "mouse": True,
+            "paste": rng.random() < 0.3, "focusrep": rng.random() < 0.3, "swap": rng.choice([None, None] + SWAPS)}
 
 
 def cfg_from_behaviour(b, loop):
     st = b[1]
     sc = st["scn"]
-    events = [(e["at"], e["kind"]) for e in sc["events"]]
+    events = [(e["at"], kind_str(e["kind"], e["cut"], e["also"])) for e in sc["events"]]     # already in time order; ties keep the model's order
     f = sc["fault"]
     fault = None if f["kind"] == "none" else (f["kind"], f["idx"], f["exc"])
-    return {"loop": loop, "events": sorted(events), "fault": fault, "pop_ups": bool(sc["popups"]), "mouse": True}
+    return {"loop": loop, "events": events, "fault": fault, "pop_ups": bool(sc["popups"]), "mouse": True,
+            "swap": None if sc["swap"] == "none" else sc["swap"]}
 
 
 def sig_of(tr, l):
@@ -378,6 +462,9 @@ MC_CFG = """CONSTANTS MaxEvents = {n} Bad = "{bad}"
 Kinds = {kinds}
 Times = {times}
 FaultKinds = {fk}
+Cuts = {cuts}
+Also = {also}
+Swaps = {swaps}
 SPECIFICATION {spec}
 INVARIANT MonitorAccepts
 INVARIANT DoneMeansRestored
@@ -390,22 +477,52 @@ def run(chk):
     rng = chk.rng
     kinds_mc = ["keyH", "keyU", "mouseH", "resize", "alarm", "pipe"]
     fk = ["none"] + CALLBACKS
-    r = tlc.mc("MainLoop", MC_CFG.format(n=2 if quick else 3, bad="", kinds=_q(kinds_mc), times=_q([0, 10]), fk=_q(fk), spec="Spec"),
-               timeout=3000, heap="12g")
+    plain = {"cuts": _q([0]), "also": _q(["-"]), "swaps": _q(["none"])}
+    cfg_a = MC_CFG.format(n=2 if quick else 3, bad="", kinds=_q(kinds_mc), times=_q([0, 10]), fk=_q(fk), spec="Spec", **plain)
+    # inputs sharing a read, inputs cut in two reads, a lone ESC, the topmost widget replaced from a handler
+    if quick:
+        cfg_b = MC_CFG.format(n=2, bad="", kinds=_q(["keyH", "keyU", "up", "esc", "resize"]), times=_q([0, 10]), fk=_q(["none", "filter", "unhandled"]),
+                              spec="Spec", cuts=_q([0, 1, 2]), also=_q(["-", "keyU", "keyH"]), swaps=_q(["none", "unhandled", "keypress"]))
+    else:
+        cfg_b = MC_CFG.format(n=2, bad="", kinds=_q(["keyH", "keyU", "up", "mouseH", "meta", "esc", "resize"]), times=_q([0, 10]),
+                              fk=_q(["none", "filter", "keypress", "unhandled"]), spec="Spec", cuts=_q([0, 1, 2]),
+                              also=_q(["-", "keyU", "keyH"]), swaps=_q(["none", "unhandled", "keypress", "mouse_event"]))
+    with cf.ThreadPoolExecutor(2) as ex:      # the two exhaustive runs overlap
+        fb = ex.submit(tlc.mc, "MainLoop", cfg_b, workers=3 if quick else 6, timeout=3000, heap="8g")
+        r = tlc.mc("MainLoop", cfg_a, workers=3 if quick else 6, timeout=3000, heap="12g")
+        r2 = fb.result()
     chk.add_mc("MC_MainLoop_design", r)
-    if not r.ok:
-        chk.reject("C12.model." + str(r.violated), {"model": "MainLoop"}, {"tlc_trace": r.trace[-6:]})
+    chk.add_mc("MC_MainLoop_design_shared_and_split_reads", r2)
+    for rr in (r, r2):
+        if not rr.ok:
+            chk.reject("C12.model." + str(rr.violated), {"model": "MainLoop"}, {"tlc_trace": rr.trace[-6:]})
     refuted = {}
-    for bad in ("noStopOnError", "skipUnhandled", "noRedraw"):
-        rb = tlc.mc("MainLoop", MC_CFG.format(n=2, bad=bad, kinds=_q(["keyH", "keyU", "alarm"]), times=_q([0]), fk=_q(["none", "keypress", "alarm"]), spec="Spec"),
-                    timeout=900)
+
+    def refute(bad):
+        if bad == "staleTop":
+            c = MC_CFG.format(n=1, bad=bad, kinds=_q(["keyH", "keyU"]), times=_q([0]), fk=_q(["none"]), spec="Spec", cuts=_q([0]),
+                              also=_q(["-", "keyU", "keyH"]), swaps=_q(["none", "unhandled", "keypress"]))
+        elif bad == "noInputTimer":
+            c = MC_CFG.format(n=1, bad=bad, kinds=_q(["keyU", "esc"]), times=_q([0]), fk=_q(["none"]), spec="Spec", cuts=_q([0]),
+                              also=_q(["-", "keyU"]), swaps=_q(["none"]))
+        elif bad == "staleInputTimer":
+            c = MC_CFG.format(n=1, bad=bad, kinds=_q(["keyU", "up"]), times=_q([0]), fk=_q(["none"]), spec="Spec", cuts=_q([0, 1]),
+                              also=_q(["-"]), swaps=_q(["none"]))
+        else:
+            c = MC_CFG.format(n=2, bad=bad, kinds=_q(["keyH", "keyU", "alarm"]), times=_q([0]), fk=_q(["none", "keypress", "alarm"]), spec="Spec", **plain)
+        return bad, tlc.mc("MainLoop", c, workers=2, timeout=900)
+
+    with cf.ThreadPoolExecutor(3) as ex:
+        bad_runs = list(ex.map(refute, ("noStopOnError", "skipUnhandled", "noRedraw", "staleTop", "staleInputTimer", "noInputTimer")))
+    for bad, rb in bad_runs:
         refuted[bad] = rb.violated is not None
         chk.cov["tlc_runs"].append({"run": f"MC_MainLoop_bad_{bad}_must_fail", "violated": rb.violated, "generated": rb.generated})
     chk.cov["contract_refutes_bad_designs"] = refuted
     if not all(refuted.values()):
         raise tlc.MachineryError(f"MainLoop.tla no longer refutes a deliberately wrong main loop: {refuted}")
     # ---- spec -> code: TLC sessions on the real MainLoop ------------------------------------------
-    simcfg = MC_CFG.format(n=3, bad="", kinds=_q(KINDS), times=_q([0, 10, 20]), fk=_q(fk), spec="SimSpec")
+    simcfg = MC_CFG.format(n=3, bad="", kinds=_q(KINDS + ["meta", "esc"]), times=_q([0, 10, 20]), fk=_q(fk), spec="SimSpec", cuts=_q([0, 0, 1, 2, 4]),
+                           also=_q(["-", "-", "keyH", "keyU", "mouseU"]), swaps=_q(["none", "none"] + SWAPS))
     behs = tlc.simulate("MainLoop", simcfg, num=40 if quick else 1500, depth=3, seed=chk.seed, jobs=2 if quick else 8, timeout=1500)
     cfgs = []
     loops_q = ["select", "asyncio"] if quick else LOOPS
@@ -427,6 +544,11 @@ def run(chk):
             c["fault"] = ("unhandled", 1, c["fault"][2])
         cfgs.append(c)
     chk.cov["legacy_screen_sessions"] = n_legacy
+    n_fam = 36 if quick else 1500
+    for i in range(n_fam):
+        cfgs.append(batch_cfg(rng, LOOPS[i % len(LOOPS)]))
+        cfgs.append(split_cfg(rng, LOOPS[(i + 3) % len(LOOPS)] if i % 2 else LOOPS[i % len(LOOPS)]))
+    chk.cov["shared_read_sessions"] = chk.cov["split_read_sessions"] = n_fam
     results = run_sessions(cfgs)
     traces = []
     errors = [r for r in results if r is None or "error" in r]
@@ -457,6 +579,40 @@ def run(chk):
     for cb in CALLBACKS:
         if not any(k.startswith(f"fault.{cb}.") for k in kinds):
             chk.vacuity.append("driver.fault." + cb)
+    # the new families must have happened (counts only, no verdict): an input offered to the widget after the topmost widget was
+    # replaced earlier in the same batch; a split input completed by a second read; a lone ESC delivered by the screen's timer
+    fam = {"input_after_swap_in_same_batch": 0, "input_after_swap_in_same_batch.pop_ups_off": 0, "split_input_completed": 0, "lone_esc_delivered": 0,
+           "swap.keypress": 0, "swap.mouse_event": 0, "swap.unhandled": 0, "swap.alarm": 0}
+    for t in traces:
+        swapped_in_batch = part = held = False
+        last_cb = None
+        for e in t["ev"]:
+            k = e["t"]
+            if k == "filter":
+                swapped_in_batch = False
+                if part and e["keys"] and e["keys"] != ["window resize"]:
+                    fam["split_input_completed"] += 1
+                    part = False
+                if held and "esc" in e["keys"]:
+                    fam["lone_esc_delivered"] += 1
+                    held = False
+            elif k == "partial":
+                part = True
+            elif k == "arrive_held":
+                held = True
+            elif k == "swap":
+                swapped_in_batch = True
+                fam["swap." + (last_cb if last_cb in ("keypress", "mouse_event", "unhandled") else "alarm")] += 1
+            elif k in ("keypress", "mouse_event") and swapped_in_batch:
+                fam["input_after_swap_in_same_batch"] += 1
+                if not t["cfg"].get("pop_ups"):
+                    fam["input_after_swap_in_same_batch.pop_ups_off"] += 1
+            if k in ("keypress", "mouse_event", "unhandled", "alarm"):
+                last_cb = k
+    chk.cov["family_counts"] = fam
+    for k, v in fam.items():
+        if not v:
+            chk.vacuity.append("driver." + k)
     chk.sample({"cfg": traces[0]["cfg"], "events": [e for e in traces[0]["ev"] if e["t"] not in term_kinds][:40]})
     chk.cov["trusted_base"] = ["TLC", "Terminal.tla mode tracking", "vf/loops.py doubles", "session runner vf/props/c12.py (real pty, fork per session)",
                                "vf/term.py tokeniser"]
